@@ -173,6 +173,14 @@ func (c *Cluster) step(a Action) {
 
 // epilogue: heal, bring every node back, run fault-free.
 func (c *Cluster) epilogue(p Profile) {
+	// no further faults: pending "crash at the k-th storage operation" arms are cancelled
+	for _, id := range c.Order {
+		if n := c.Nodes[id]; n.cur != nil {
+			n.cur.smu.Lock()
+			n.cur.crashArmed = false
+			n.cur.smu.Unlock()
+		}
+	}
 	c.step(Action{Op: "heal", Mode: "deliver", Pat: "epilogue"})
 	for _, id := range c.Order {
 		n := c.Nodes[id]
@@ -182,6 +190,17 @@ func (c *Cluster) epilogue(p Profile) {
 		}
 		if n.Stopped() && n.everStarted {
 			c.step(Action{Op: "restart", Node: id, Pat: "epilogue"})
+		}
+	}
+	// every member named by a running node's configuration runs from now on
+	for _, id := range append([]string(nil), c.Order...) {
+		if r := c.Nodes[id].Raft(); r != nil {
+			cf := r.Configuration()
+			for m := range cf.Members {
+				if mn := c.Nodes[m]; mn == nil || (mn.Stopped() && !mn.everStarted) {
+					c.step(Action{Op: "startempty", Node: m, Pat: "epilogue"})
+				}
+			}
 		}
 	}
 	n := p.EpilogueET
@@ -240,6 +259,7 @@ func runInBubble(base string, p Profile, h Header, hooks Hooks, mk func(c *Clust
 	res.Final = c.Observe()
 	c.Shutdown()
 	res.Violations = c.rec.Finish()
+	res.Violations = append(res.Violations, c.Extra...)
 	if c.Hang != "" {
 		hangSeen = true
 		res.Violations = append(res.Violations, Violation{Property: "C18", Signature: "C18/stop-hangs", Msg: c.Hang})
